@@ -17,6 +17,7 @@ import (
 	"go/token"
 	"os"
 	"strconv"
+	"strings"
 )
 
 var (
@@ -70,7 +71,20 @@ func lockCall(e ast.Expr) (kind string, recv ast.Expr) {
 	if k == "" {
 		return "", nil
 	}
+	for _, sk := range skipRecv {
+		if sk != "" && strings.Contains(exprText(s.X), sk) {
+			return "", nil
+		}
+	}
 	return k, s.X
+}
+
+var skipRecv []string
+
+func exprText(e ast.Expr) string {
+	var b bytes.Buffer
+	_ = format.Node(&b, fset, e)
+	return b.String()
 }
 
 func ref(x ast.Expr) ast.Expr {
@@ -240,7 +254,9 @@ func main() {
 	out := flag.String("out", "", "output file")
 	only := flag.String("only", "", "comma-separated function names to instrument (default: all)")
 	imp := flag.String("import", "berty.tech/weshnet/v2/internal/vsched", "import path of vsched")
+	skip := flag.String("skip", "", "comma-separated substrings: lock operations on receivers containing one are left alone")
 	flag.Parse()
+	skipRecv = strings.Split(*skip, ",")
 	f, err := parser.ParseFile(fset, *in, nil, parser.ParseComments)
 	if err != nil {
 		fmt.Fprintln(os.Stderr, err)
